@@ -4,6 +4,7 @@ import (
 	"bytes"
 	"encoding/json"
 	"fmt"
+	"math/big"
 	"strings"
 
 	pipeline "github.com/buildkite/go-pipeline"
@@ -207,8 +208,50 @@ func c03ladders(rng *sx.Rng, n int) {
 	}
 }
 
+// c03plainKeys: plain (unquoted) keys that YAML resolves to integers or booleans appear in the normal form
+// exactly once under their canonical spelling (decimal / true / false), wherever they stand
+func c03plainKeys() {
+	type kc struct{ text, canon string }
+	var ks []kc
+	for _, t := range []string{"0x10", "0X1f", "0o17", "0b101", "1_000", "+7", "-0x8", "007", "18446744073709551615", "0xFFFFFFFFFFFFFFFF", "9223372036854775808",
+		"0b1111111111111111111111111111111111111111111111111111111111111111", "0o1777777777777777777777", "18_446_744_073_709_551_615"} {
+		clean := strings.ReplaceAll(t, "_", "")
+		if strings.HasPrefix(clean, "00") || len(clean) > 1 && clean[0] == '0' && clean[1] >= '0' && clean[1] <= '9' {
+			continue // YAML 1.1 octal spellings: left out, the two YAML versions disagree on them
+		}
+		n, ok := new(big.Int).SetString(clean, 0)
+		if !ok {
+			continue
+		}
+		ks = append(ks, kc{t, n.String()})
+	}
+	for _, t := range []string{"true", "True", "TRUE", "false", "False"} {
+		ks = append(ks, kc{t, strings.ToLower(t)})
+	}
+	for _, k := range ks {
+		for ti, tmpl := range []string{"%s: topv\nsteps: []\n", "steps:\n- command: c\n  %s: stepv\n", "steps:\n- command: c\n  agents:\n    %s: nestedv\n", "steps:\n- wait: ~\n  %s: waitv\n"} {
+			text := fmt.Sprintf(tmpl, k.text)
+			c := sx.L(sx.A("yaml-plain-key"), sx.A(text))
+			r, bad := runParse(text, "yaml-plain-key")
+			if bad != "" || r == nil || r.hard || r.jsonErr != nil {
+				oracleFail("C03", "plain-key-rejected", c, fmt.Sprintf("a document with the plain key %s does not parse and marshal: %s %v", k.text, bad, r))
+				continue
+			}
+			out := string(r.jsonOut)
+			val := []string{"topv", "stepv", "nestedv", "waitv"}[ti]
+			if want := fmt.Sprintf("%q:%q", k.canon, val); strings.Count(out, want) != 1 {
+				oracleFail("C03", "plain-key-spelling", c, fmt.Sprintf("the key %s should appear once as %s in %s", k.text, want, out))
+				continue
+			}
+			stat("C03", "plain-keys")
+			fmt.Fprintf(out2(), "CASE\tC03\t%s\t%s\t1\n", sx.String(r.caseSx), sx.String(r.obs))
+		}
+	}
+}
+
 func init() {
 	props["C03"] = func(rng *sx.Rng, thorough bool) {
+		c03plainKeys()
 		if thorough {
 			c03ladders(rng, 5000)
 		} else {
